@@ -30,8 +30,9 @@ func convertReflectValueToType(rv reflect.Value, rt reflect.Type) (reflect.Value
 		// if reflect.Type is interface or the types match, return the provided reflect.Value
 		return rv, nil
 	}
-	if rv.Type().ConvertibleTo(rt) {
+	if rv.Type().ConvertibleTo(rt) && !(rv.Kind() == reflect.Slice && rt.Kind() == reflect.Array) {
 		// if reflect can covert, do that conversion and return
+		// (a slice to an array goes element by element below: reflect panics when the slice is shorter than the array)
 		return rv.Convert(rt), nil
 	}
 	if (rv.Kind() == reflect.Slice || rv.Kind() == reflect.Array) &&
